@@ -1766,6 +1766,10 @@ class SSHConnection(SSHPacketHandler, asyncio.Protocol):
 
         self._recv_handler = self._recv_pkthdr
 
+        if _verif.sink:
+            _verif.emit('pkt_done', conn=self, pkttype=pkttype, seq=seq,
+                        is_async=is_async)
+
         if is_async and self._inpbuf:
             self._recv_data()
 
@@ -1828,6 +1832,7 @@ class SSHConnection(SSHPacketHandler, asyncio.Protocol):
         if _verif.sink:
             _verif.emit('pkt_out', conn=self, pkttype=pkttype, seq=seq,
                         payload=orig_payload, wire_len=len(packet) + len(mac),
+                        pktlen=pktlen,
                         encrypted=bool(self._send_encryption),
                         written=bool(self._transport))
 
